@@ -26,7 +26,7 @@ func genHandover(r *rand.Rand) *plan.Plan {
 		k.PQS = &boolF
 	}
 	p := &plan.Plan{Knobs: k, Params: map[string]any{}}
-	inc := plan.Incarnation{Boot: "full", SchedSeed: r.Uint64() | 1}
+	inc := plan.Incarnation{Boot: "full", SchedSeed: r.Uint64()>>11 | 1}
 	nIdx := 1 + r.IntN(2)
 	total := map[string]int{}
 	var names []string
@@ -151,7 +151,7 @@ func genConcurrent(r *rand.Rand, quick bool) *plan.Plan {
 		}
 		clients = append(clients, ops)
 	}
-	inc := plan.Incarnation{Boot: "full", SchedSeed: r.Uint64() | 1}
+	inc := plan.Incarnation{Boot: "full", SchedSeed: r.Uint64()>>11 | 1}
 	inc.Ops = append(inc.Ops, plan.Op{Kind: "par", Par: clients})
 	// quiescence: timers drained, final flush, final reads
 	inc.Ops = append(inc.Ops, plan.Op{Kind: "advance", DurMs: 40_000}, plan.Op{Kind: "flush"})
